@@ -111,7 +111,7 @@ Theorem message_text_header cells rt f :
 Proof.
   intros Hrt Hf. rewrite flow_ctx_some. destruct tables_facts as [_ [Hsw [_ [Hnb _]]]]. split.
   - unfold ctx_h2f. rewrite Hnb, str_eqb_refl, Hrt, Hf. reflexivity.
-  - apply long_fixed_h2f. apply (Hsw rt f). apply oget_in. exact Hf.
+  - apply long_fixed_h2f. apply (Hsw (sw_key flow_cx rt) f). apply oget_in. exact Hf.
 Qed.
 
 (* ... and a row type that is not in the table (under the key it is looked up with) is a KeyError *)
